@@ -279,6 +279,16 @@ func c06Exec(c fw.Case) *fw.Result {
 		if pos >= 0 && c.Int("noheader") == 1 {
 			f.Header = nil
 		}
+		if pos < 0 && c.Int("emptyhdr") == 1 {
+			// a header block without any field (all are optional): its payload is 0 bytes long
+			f.Header = &pbfw.Header{Zlib: f.Header.Zlib}
+		}
+		if pos < 0 && cl.name == "zlib-truncated" && len(f.Header.EncodeHeaderBlock()) == 0 {
+			// cutting the compressed form of an empty payload loses no data: what comes out is
+			// the whole (empty) payload, as with a cut inside the checksum trailer. Asserted
+			// like that class: survival, no invention; an error is not demanded.
+			cl.strict = false
+		}
 		dmg := map[int]pbfw.Damage{pos: {Kind: cl.name, Arg: c.Int("arg")}}
 		data, _ := f.Encode(dmg)
 		// skip flags do not excuse a reader from noticing damage: with some or all kinds
@@ -595,6 +605,11 @@ func c06Cases(tier string, seed uint64) []fw.Case {
 						for rep := 0; rep < reps; rep++ {
 							cs = append(cs, fw.Case{Kind: "damage", Variant: v, Seed: gen.Sub(seed, "c06dmg", ci*10+rep),
 								P: map[string]int64{"class": int64(ci), "arg": arg, "pos": pos, "procs": procs, "zlib": zl, "askheader": int64(rep % 2), "noheader": noheader}})
+						}
+						if pos < 0 && pi == 0 {
+							// the same damage on a header block that has no field at all
+							cs = append(cs, fw.Case{Kind: "damage", Variant: v, Seed: gen.Sub(seed, "c06dmgE", ci*10+ai),
+								P: map[string]int64{"class": int64(ci), "arg": arg, "pos": pos, "procs": procs, "zlib": zl, "askheader": int64(ai % 2), "noheader": 0, "emptyhdr": 1}})
 						}
 					}
 				}
